@@ -11,6 +11,7 @@ from .expr import Frame
 from .state import Cell, DictObj, ExtInst, InstObj, IterObj, ListObj, State, make_bottom
 from .values import (
     STAR,
+    Length,
     Bool,
     Bottom,
     ClassV,
@@ -28,6 +29,7 @@ from .values import (
     Val,
     join_val,
     short,
+    subst_val,
 )
 
 MAX_DEPTH = 16
@@ -57,7 +59,14 @@ class CallMixin:
         for kw in e.keywords:
             v = self.eval(kw.value, state)
             if kw.arg is None:
-                self.note_undecided("**kwargs call", e)
+                # **mapping: expanded when it is a dict whose entries are all known string keys
+                d = self.deref(state, v) if isinstance(v, Ptr) else None
+                o = d[0] if d is not None else None
+                if isinstance(o, DictObj) and o.fixed is not None and all(k is not None and k[0] == "s" for k, _ in o.fixed):
+                    for k, x in o.fixed:
+                        kwargs[k[1]] = subst_val(x, d[1]) if d[1] else x
+                else:
+                    self.note_undecided("**kwargs call with a mapping whose keys are not known", e)
             else:
                 kwargs[kw.arg] = v
         if state.bottom:
@@ -182,7 +191,13 @@ class CallMixin:
                 self.do_raise(state, "TypeError", node, implicit=True, mro=("TypeError", "Exception"))
                 return None
         if a.kwarg is not None:
-            bound[a.kwarg.arg] = Top("**kwargs dict")
+            items = tuple((("s", k), v) for k, v in extra.items())
+            key: Val = Top("empty")
+            val: Val = Top("empty")
+            for k, v in extra.items():
+                key = Str(k) if isinstance(key, Top) else join_val(key, Str(k))
+                val = v if isinstance(val, Top) else join_val(val, v)
+            bound[a.kwarg.arg] = self.alloc(state, DictObj(key, val, Length.const(len(items)), items), node, "kwargs")
         for name in pos:
             if name not in bound:
                 if name in pos_defaults:
